@@ -63,3 +63,27 @@ def r02_6(ctx, rr):
         rr.ob(ok, key=key + str(off), sample={"expr": show(F, n), "base": tshow(base), "addend": off})
         if not ok:
             rr.violate(key, "Select9::new rounds `%s` with `(x + %d) & !7`: the 0xFFFF sentinels must reach the next multiple of 8 strictly above the number of blocks (`(x + 8) & !7`), otherwise a span with a multiple of 8 blocks has no sentinel group and select lands 8 blocks too far" % (tshow(base), off), F.loc(n))
+
+
+@rule("R12.6", props=["C02", "C01"], floor=6, title="map(): a structure rebuilt around a new backend keeps every const parameter of the original")
+def r12_6(ctx, rr):
+    """`fn map(self, f) -> S<C, I>` with the const parameters left to their defaults returns a structure that reads
+    the tables built for the receiver's parameters with other ones."""
+    F = ctx.F()
+    maps = [b for b in F.fns() if b.name == "map" and b.file.startswith("src/rank_sel/") and b.impl_self]
+    if len(maps) < 6:
+        raise AnchorMissing("expected at least 6 map() methods on rank/select structures, found %d" % len(maps))
+    from r_serde import top_args
+    for b in maps:
+        self_args = top_args(b.impl_self)
+        ret = b.ret or ""
+        ret_args = top_args(ret)
+        # const parameters: identifiers in upper case or integer literals
+        def consts(args):
+            return [a for a in args if re.fullmatch(r"[A-Z][A-Z0-9_]{3,}|\d+", a)]
+        rr.instances += 1
+        ok = consts(self_args) == consts(ret_args) and strip_generics(ret).split("<")[0] == strip_generics(b.impl_self).split("<")[0]
+        key = "%s:keeps-const-parameters" % short_fn(b.key)
+        rr.ob(ok, key=key, sample={"fn": b.key, "self": b.impl_self, "returns": ret})
+        if not ok:
+            rr.violate(key, "%s returns `%s` for a receiver `%s`: the const parameters %s are not carried over (they fall back to their defaults), so the rebuilt structure reads the inventories built for the original parameters with different ones" % (b.key, ret, b.impl_self, consts(self_args)), b.span)
